@@ -63,6 +63,9 @@ func profileByName(name string) Profile {
 	case "enc":
 		p.PSoft, p.PNested, p.PVariadic, p.PViaOpt, p.PFault, p.PInfo = 0, 0.5, 0.2, 0.3, 0.1, 0.3
 		p.PAs = 0.1
+		// names and groups that an option and a tag must treat alike, whatever they contain
+		p.Names = []string{"", "", "n1", "a`b", "q\"x"}
+		p.Groups = []string{"g1", "g2", "g`3"}
 	case "order":
 		p.PSoft, p.PFault, p.MaxScopes, p.PLateScope, p.PMidInvoke, p.PInvalid = 0, 0, 5, 0.5, 0.4, 0
 		p.PDefer = 0.3
